@@ -426,6 +426,8 @@ func vfC18RunSession(c vfC18ConnCase) (conns [][]*vfFrame, errText string) {
 	d := vfNewDialer(n)
 	cfg := vfClusterConfig(d, c.Proto, n.Desc.Addr)
 	cfg.DefaultTimestamp = false // bodies must not depend on the clock: they are paired with a compression-off run
+	cfg.Timeout = 5 * time.Second
+	cfg.ConnectTimeout = 10 * time.Second
 	cfg.Compressor = vfC18Compressor(c.Configured)
 	pa := PasswordAuthenticator{Username: "cassandra-user", Password: strings.Repeat("s3cr3t-", 6)}
 	switch c.Auth {
@@ -659,7 +661,7 @@ func vfC18RunResp(c vfC18RespCase) string {
 		flags = 1
 	}
 	var fired sync.Once
-	var armed int32
+	var armed, warming int32
 	var held *vfFrame // touched only on the connection's reader goroutine
 	followRows := vfRowsBody(4, "ks", "tbl", []vfCol{{"v", vfTVarchar}}, [][][]byte{{vfCellText("follow-up")}}, nil, false)
 	eventSent := make(chan struct{})
@@ -673,6 +675,10 @@ func vfC18RunResp(c vfC18RespCase) string {
 			nc.ReplyFlags(f, flags, vfOpReady, body)
 			return true
 		case c.Stage == "result" && (f.Op == vfOpExecute || f.Op == vfOpQuery && strings.Contains(q.Stmt, "ks.tbl")):
+			if atomic.LoadInt32(&warming) == 1 { // statement cache warm-up of the two-requests-in-flight scenario
+				nc.Reply(f, vfOpResult, followRows)
+				return true
+			}
 			k := atomic.AddInt32(&armed, 1)
 			switch {
 			case c.Kind == "forged-frames" && k == 1:
@@ -716,7 +722,7 @@ func vfC18RunResp(c vfC18RespCase) string {
 	withControl := c.Stage == "event"
 	mod := func(cfg *ClusterConfig) {
 		cfg.ReconnectionPolicy = &ConstantReconnectionPolicy{MaxRetries: 1, Interval: time.Millisecond}
-		cfg.Timeout = 2 * time.Second // a swallowed answer shows as a timeout; keep it well above scheduling noise
+		cfg.Timeout = 3 * time.Second // a swallowed answer shows as a timeout; keep it well above scheduling noise
 		if c.Negotiated == "snappy" {
 			cfg.Compressor = SnappyCompressor{}
 		}
@@ -775,8 +781,9 @@ func vfC18RunResp(c vfC18RespCase) string {
 			if c.Kind == "forged-frames" {
 				// two requests in flight: warm the statement cache, then the second request starts while the
 				// first is unanswered
-				s.Query("SELECT v FROM ks.tbl WHERE k = 0").Exec()
-				atomic.StoreInt32(&armed, 0)
+				atomic.StoreInt32(&warming, 1)
+				s.Query("SELECT v FROM ks.tbl").Exec()
+				atomic.StoreInt32(&warming, 0)
 				fdone := make(chan struct{})
 				go func() {
 					defer close(fdone)
